@@ -98,6 +98,39 @@ func jobsFor(prop, tier string) []Job {
 				mk("crash-w0-nodrain-eager", params("W", 0, "DRAIN", 0, "IB", 0), 1, tears, true, 0),
 				mk("crash-w1-sched1", params("W", 1, "MEMTHR", 60, "DRAIN", 0), 1, tears, false, 1))
 		}
+	case "C05", "C06", "C07", "C08":
+		mk := func(name string, p map[string]int) Job {
+			return Job{Name: name, Pkg: "", Fn: "VH_TXN", Inits: true, Samples: 4, Params: p,
+				Bounds:  map[string]any{"transactions": p["NT"], "scripts": "LIB library scripts from LIB0 (write skew halves, long reader, multi-key writer, read-modify-write, abandoned writer, delete, misuse, ...)", "interleavings": "every interleaving of the scripts' API calls on one goroutine (forked)", "values": "symbolic bytes", "MemtableByteThreshold": "symbolic 1..120 (rotation/flush/compaction with version GC between arbitrary steps)", "params": p},
+				Assumes: []string{"utils.Hash executed exactly on the concrete keys (no fingerprint collision among them)", "bloom filter: real code on concrete keys", aS2, aFS, aClock},
+				Outside: []string{"more than NT concurrent transactions, scripts outside the library", "true goroutine concurrency of transactions (C12 harness)", "fingerprint collisions"}}
+		}
+		js = []Job{
+			mk("txn-2-core", params("NT", 2, "LIB0", 0, "LIB", 5, "K0", 0, "IBMAX", 0, "BLKMAX", 0)),
+			mk("txn-2-rw-del", params("NT", 2, "LIB0", 3, "LIB", 4, "K0", 2, "IBMAX", 0, "BLKMAX", 0, "REOPEN", 0)),
+			mk("txn-1-misuse", params("NT", 1, "LIB0", 7, "LIB", 4, "K0", 3, "UPDATEERR", 1)),
+			mk("txn-2-updateerr", params("NT", 2, "LIB0", 2, "LIB", 2, "K0", 1, "UPDATEERR", 1, "IBMAX", 0, "BLKMAX", 0)),
+		}
+		if thorough {
+			js = append(js, mk("txn-3-short", params("NT", 3, "LIB0", 0, "LIB", 5, "K0", 1, "BLKMAX", 0, "IBMAX", 0, "REOPEN", 0)),
+				mk("txn-2-all", params("NT", 2, "LIB", 11, "K0", 3, "IBMAX", 0, "BLKMAX", 0)),
+				mk("txn-2-core-nodrain", params("NT", 2, "LIB0", 0, "LIB", 7, "K0", 0, "DRAIN", 0)))
+		}
+		defer func() {
+			for i := range js {
+				switch prop {
+				case "C05":
+					js[i].OnlyAsserts = []string{"C05."}
+				case "C06":
+					js[i].OnlyAsserts = []string{"C06.", "C05."}
+				case "C07":
+					js[i].OnlyAsserts = []string{"C07."}
+				case "C08":
+					js[i].OnlyAsserts = []string{"C08."}
+				}
+				js[i].IgnorePanics = prop != "C05"
+			}
+		}()
 	case "C09":
 		mk := func(name string, p map[string]int) Job {
 			return Job{Name: name, Pkg: "", Fn: "VH_C09", Inits: true, FilterSummary: true, Samples: 4, Params: p,
